@@ -244,8 +244,12 @@ def first_coq_error(out):
                 if m:
                     where = "%s:%s: " % (os.path.basename(m.group(1)), m.group(2))
                     break
-            rest = " ".join(x.strip() for x in [ln[len("Error:"):]] + lines[i + 1:i + 4] if x.strip())
-            return (where + rest)[:300]
+            msg = [x.strip() for x in [ln[len("Error:"):]] + lines[i + 1:] if x.strip()]
+            if msg and msg[0].startswith("In environment"):
+                # skip the printed proof context
+                keep = [k for k, x in enumerate(msg) if re.match(r"(Unable|The term|Found|No |Tactic|Cannot|Not |Illegal|The reference|Ltac|Anomaly)", x)]
+                msg = msg[keep[0]:] if keep else msg
+            return (where + " ".join(msg[:4]))[:300]
     return (lines[-1] if lines else "no output")[:300]
 
 
